@@ -128,6 +128,32 @@ def check(ctx, rep):
                   and fls.knows(a, "c == b'\\x00'", True)]
         rep.ob('scan.mode-ends-with-the-line', 'skip_to leaves `%s` mode at the end of the line' % m_, len(resets) >= 1,
                'once entered, the mode lasts to the end of the program: DATA statements after a remark (or an unclosed quote) are never found', ctx.where(st_))
+    # the search looks at the *keyword* of each statement: blanks after the separator are skipped first
+    # (`10 PRINT 1: DATA 2`), and the position is put back to the start of the keyword
+    stt = ctx.fn('pcbasic/basic/base/codestream.py:TokenisedStream.skip_to_token')
+    lp = [n for n in stt.body if isinstance(n, ast.While)]
+    seq = [norm(x) for x in (lp[0].body if lp else [])]
+
+    def at(t):
+        return seq.index(t) if t in seq else None
+    order = [at('self.skip_blank()'), at('token = self.read_keyword_token()'), at('self.seek(-len(token), 1)')]
+    rep.ob('scan.keyword-after-blanks', 'skip_to_token skips blanks, reads the whole keyword token and rewinds to its start', None not in order and order == sorted(order),
+           'DATA after `: ` or extra blanks is not recognised: its items are skipped (or Out of DATA is raised early)', ctx.where(stt))
+    # a numeric DATA item may carry a sign: the set of bytes that start a decimal literal includes + and -
+    rn = ctx.fn('pcbasic/basic/base/codestream.py:CodeStream.read_number')
+    flr_ = ctx.flow(rn)
+    dec = [r for r in own_nodes(rn) if isinstance(r, ast.Return) and norm(r.value) == 'self._read_dec()']
+    starts = None
+    if len(dec) == 1:
+        for f in flr_.facts(dec[0]):
+            if f.pol and isinstance(f.cond, ast.BoolOp):
+                for v in f.cond.values:
+                    if isinstance(v, ast.Compare) and isinstance(v.ops[0], ast.In) and norm(v.left) == 'c':
+                        starts = ctx.cf.fold(v.comparators[0], rn._module)
+            elif f.pol and isinstance(f.cond, ast.Compare) and isinstance(f.cond.ops[0], ast.In) and norm(f.cond.left) == 'c':
+                starts = ctx.cf.fold(f.cond.comparators[0], rn._module)
+    rep.ob('number.signed-items', 'a decimal literal may start with a digit, a point or a sign', isinstance(starts, bytes) and set(b'0123456789.+-') <= set(starts),
+           'literal start bytes are %r: a DATA item such as -12.5 read into a numeric variable is a Syntax error' % (starts,), ctx.where(rn))
     # restore
     rs = ctx.fn(INTERP + ':Interpreter.restore_')
     flr = ctx.flow(rs)
@@ -154,6 +180,10 @@ def variants(ctx):
     def rs(f):
         return lambda tree: f(mu.find_def(tree, 'Interpreter.restore_'))
     return [
+        Va('data-keyword-without-blank-skip', 'break', 'pcbasic/basic/base/codestream.py',
+           lambda tree: mu.remove_stmt(mu.find_def(tree, 'TokenisedStream.skip_to_token'), mu.text_is('self.skip_blank()')), expect='scan.keyword'),
+        Va('unsigned-data-items-only', 'break', 'pcbasic/basic/base/codestream.py',
+           lambda tree: mu.replace_expr(mu.find_def(tree, 'CodeStream.read_number'), mu.text_is("DIGITS + b'.+-'"), "DIGITS + b'.'"), expect='number.signed'),
         Va('remark-mode-never-ends', 'break', 'pcbasic/basic/base/codestream.py',
            lambda tree: mu.remove_stmt(mu.find_def(tree, 'TokenisedStream.skip_to'), mu.text_is('rem = False'), count=1) and _drop_second_rem(mu.find_def(tree, 'TokenisedStream.skip_to')), expect='scan.mode-ends'),
         Va('pointer-never-advances', 'break', INTERP, rd(lambda fn: mu.remove_stmt(fn, mu.text_is('self.data_pos = data_pos'))), expect='read.pointer-advances'),
